@@ -389,7 +389,21 @@ func (c *certificateV2) fromTBSCertificate(t *TBSCertificate) error {
 }
 
 func (c *certificateV2) validate() error {
-	// Empty names are allowed
+	// The v2 wire format can not carry an empty name, a name longer than MaxNameLength or an empty group:
+	// unmarshalDetails refuses all three. Refuse them here too so that a certificate nobody can load is never signed.
+	if len(c.details.name) == 0 {
+		return NewErrInvalidCertificateProperties("certificate name must not be empty")
+	}
+
+	if len(c.details.name) > MaxNameLength {
+		return NewErrInvalidCertificateProperties("certificate name must not be longer than %d bytes", MaxNameLength)
+	}
+
+	for _, group := range c.details.groups {
+		if group == "" {
+			return NewErrInvalidCertificateProperties("certificate groups must not contain an empty group")
+		}
+	}
 
 	if len(c.publicKey) == 0 {
 		return ErrInvalidPublicKey
